@@ -189,3 +189,24 @@ def _prune(keep=6):
 if __name__ == '__main__':
     b = build()
     print(json.dumps(b, indent=1))
+
+
+def build_single(cfile, flags=()):
+    """compile one self-test C file with the same pipeline; returns path of facts json (in cache)"""
+    import hashlib as _h
+    src = open(cfile, 'rb').read()
+    key = 'st-' + _h.sha256(src + open(EXTRACT, 'rb').read()).hexdigest()[:20]
+    out = os.path.join(CACHE, key + '.json')
+    if not os.path.exists(out):
+        os.makedirs(CACHE, exist_ok=True)
+        bc = os.path.join(CACHE, key + '.bc')
+        rc, o, e = _run(['clang-14', '-O0', '-g', '-Xclang', '-disable-O0-optnone', '-fno-discard-value-names', '-w', '-c', '-emit-llvm'] + list(flags) + ['-o', bc, cfile])
+        if rc != 0:
+            raise AnalysisBroken('selftest %s does not compile: %s' % (cfile, e[:300]))
+        with open(out + '.tmp', 'w') as f:
+            r = subprocess.run([EXTRACT, bc], stdout=f, stderr=subprocess.PIPE, text=True)
+        os.unlink(bc)
+        if r.returncode != 0:
+            raise AnalysisBroken('extractor failed on selftest')
+        os.rename(out + '.tmp', out)
+    return out
